@@ -1,2 +1,2 @@
--- stub: replaced by the family's driver
-def main : IO Unit := IO.println "family rng: no driver yet"
+import PrimitivModel.Driver.RngDrv
+def main : IO Unit := Primitiv.Drv.RngDrv.main
